@@ -126,6 +126,13 @@ def ensure_build(need_proxy=True):
         t0 = time.time()
         changed = sync_mirror()
         configure_if_needed()
+        if not need_proxy:
+            # standalone harnesses (E-sched) compile their sources straight from the mirror and link
+            # nothing from the proxy build: do not pay for `make all`, but invalidate the stamp so
+            # that the next check that does need the proxy rebuilds it
+            if changed and os.path.exists(STAMP):
+                os.unlink(STAMP)
+            return os.path.join(OBJ, "src", "squid")
         if changed or not os.path.exists(STAMP):
             log("[build] make -j%d all" % NCPU)
             if os.path.exists(STAMP):
